@@ -42,10 +42,11 @@ ALGS = ("envelope", "cholesky", "gso", "svd")
 KINDS = ("obs", "hdiffs", "coords", "vectors")
 
 # Adjusted coordinates are printed with 16 decimals (full double precision), [pvv] with 8
-# significant digits.  Measured on the unchanged tree (seeds 1..5, n_cases=40): max deviation of
-# coordinates between variants/algorithms ~1e-9 m, of [pvv] ~5e-8 relative (print precision).  Dropping
-# one off-diagonal element moves coordinates by 1e-5..1e-3 m and [pvv] by percents.
-COORD_ATOL = 2e-7      # m
+# significant digits.  Measured on the unchanged tree (seeds 1..13, up to 300 cases each): max deviation
+# of coordinates between variants/algorithms 8.5e-14 m, [pvv] identical in all 8 printed digits.
+# Deliberately wrong variants (sensitivity_probe: one off-diagonal dropped, wrong sub-matrix, wrong
+# whitening) move coordinates by 3e-6..3e-3 m and [pvv] by 0.2..80 %.
+COORD_ATOL = 1e-9      # m
 COORD_RTOL = 1e-6      # relative to the size of the correction (adjusted - approximate)
 PVV_RTOL = 1e-5
 PVV_ATOL = 1e-9
@@ -935,7 +936,7 @@ def generate(rng, n_cases, include_f9=True, include_tiny=True):
     return cases
 
 
-def run(ctx, corr, gama_dir, n_cases, include_f9=True, include_tiny=True):
+def run(ctx, corr, gama_dir, n_cases, include_f9=True, include_tiny=True, probe=True):
     """generate n_cases network cases from ctx.rng, run every variant with the four algorithms, report into corr.
     Returns a list of per-case summaries (family, key, status, deviations, outcomes) for logging."""
     exe = Path(gama_dir) / "gama-local"
@@ -987,6 +988,13 @@ def run(ctx, corr, gama_dir, n_cases, include_f9=True, include_tiny=True):
         summaries.append({"family": fam, "sub": c["sub"], "kind": c["kind"], "meta": c["meta"], "status": ev["status"],
                           "dcoord": ev["dcoord"], "dpvv": ev["dpvv"], "detail": ev["detail"], "outcomes": ev["outcomes"],
                           "case": c})
+    if probe:
+        for name, caught, dc, dp in sensitivity_probe(gama_dir, ctx.rng):
+            corr.count("net_probe_wrong_variants", 1)
+            corr.count("net_probe_caught", 1 if caught else 0)
+            if not caught:
+                corr.inconclusive.append(f"c10_net: deliberately wrong variant '{name}' not noticed "
+                                         f"(dcoord {dc:.3e} m, d[pvv] {dp:.3e})")
     if cases and trivial > 0.1 * len(cases):
         corr.inconclusive.append(f"c10_net: {trivial}/{len(cases)} trivial network cases (all variants fail identically)")
     return summaries
@@ -1008,6 +1016,58 @@ def replay_case(gama_dir, payload):
         for a in ALGS:
             lines.append(f"  {n:24s} {a:9s} {ev['outcomes'][n][a]}")
     return ev["status"] == "fail", "\n".join(lines)
+
+
+def sensitivity_probe(gama_dir, rng):
+    """feed deliberately WRONG "equivalent" variants and check that the comparison notices:
+       (1) one non-zero off-diagonal element of the covariance matrix dropped,
+       (2) the leading sub-matrix used instead of the principal sub-matrix on the remaining indices,
+       (3) a whitened observation with a wrong standard deviation (1/w_i^2 instead of 1/|w_i|).
+    Returns [(name, caught, max_dcoord, max_dpvv_rel)]"""
+    exe = Path(gama_dir) / "gama-local"
+    cases, names = [], []
+    # (1)
+    net = _lev_net(rng)
+    n = 4
+    cl, dims, sc = _test_cluster(rng, net, "hdiffs", n)
+    _, C = _spd(rng, n, 2, sc)
+    W = [list(r) for r in C]
+    i, j = next((i, j) for i in range(n) for j in range(i + 1, n) if C[i][j] != 0)
+    W[i][j] = W[j][i] = 0
+    cases.append(_case("probe", "offdiag-dropped", "hdiffs",
+                       [_var("right", _gkf(net, net["clusters"] + [dict(cl, cov=C, band=n - 1)], "probe right")),
+                        _var("wrong", _gkf(net, net["clusters"] + [dict(cl, cov=W, band=n - 1)], "probe wrong"))]))
+    # (2)
+    net = _lev_net(rng)
+    n = 4
+    cl, dims, sc = _test_cluster(rng, net, "hdiffs", n, ghosts=[0])
+    _, C = _spd(rng, n, 1, [1, 2, 3, 1])
+    red = dict(cl, items=cl["items"][1:])
+    cases.append(_case("probe", "leading-submatrix", "hdiffs",
+                       [_var("right", _gkf(net, net["clusters"] + [dict(cl, cov=C, band=1)], "probe passive")),
+                        _var("wrong", _gkf(net, net["clusters"] + [dict(red, cov=_sub(C, [0, 1, 2]), band=1)], "probe wrong sub-matrix"))]))
+    # (3)
+    c = None
+    while c is None or not any(abs(abs(sum(r)) - 1) > Fr(1, 10) for r in c[1]) or any(sum(r) == 0 for r in c[1]):
+        L, C = _spd(rng, 3, 1)
+        c = (L, _lower_inverse(L))
+    M = c[1]
+    net = _lev_net(rng)
+    a, b = "A", "P1"
+    vals = [_dec(float(net["true"][b] - net["true"][a]) + rng.gauss(0, 2e-3), 5) for _ in range(3)]
+    w = [sum(r) for r in M]
+    t = [sum(M[i][k] * vals[k] for k in range(3)) for i in range(3)]
+    if all(x != 0 for x in w):
+        corr_cl = {"kind": "hdiffs", "items": [{"from": a, "to": b, "val": v} for v in vals], "cov": C, "band": 1}
+        wrong = {"kind": "hdiffs", "items": [{"from": a, "to": b, "val": t[i] / w[i], "stdev": 1 / w[i] ** 2} for i in range(3)]}
+        cases.append(_case("probe", "wrong-whitening-stdev", "hdiffs",
+                           [_var("right", _gkf(net, net["clusters"] + [corr_cl], "probe correlated")),
+                            _var("wrong", _gkf(net, net["clusters"] + [wrong], "probe wrongly whitened"))]))
+    out = []
+    for c, res in zip(cases, run_cases(exe, cases)):
+        ev = evaluate(c, res)
+        out.append((c["sub"], ev["status"] == "fail", ev["dcoord"], ev["dpvv"]))
+    return out
 
 
 # ------------------------------------------------------------------------------------------ stand-alone test
